@@ -125,5 +125,24 @@ def handle : Handler
     | _, _, _, _, _, _, _, _, _, _, _, _ => badInput "parse"
   | _ => badInput "arity"
 
-def handlers : List (String × Handler) := [("c03.op", handle)]
+/-- view.go: `GetBalance` / `SpendableCoin` for akava and "no akava exists in the base bank".
+    fields: R bal locked frac "=>" getBalance(list) spendable(list) bankAkavaSupply bankAkavaBalances(list) -/
+def handleView : Handler
+  | [R, bal, locked, frac, _, gb, sp, bsup, bbal] =>
+    match nat? R, ints? bal, ints? locked, ints? frac, ints? gb, ints? sp, int? bsup, ints? bbal with
+    | some R, some bal, some locked, some frac, some gb, some sp, some bsup, some bbal =>
+      let s := stOf bal locked frac 0 0
+      let n := bal.length
+      let mgb := (idxs n).map (extBal R s)
+      let msp := (idxs n).map (extSpendable R s)
+      let cmp := allOk [expectEq "GetBalance" (showInts mgb) (showInts gb),
+                        expectEq "SpendableCoin" (showInts msp) (showInts sp)]
+      if cmp != "ok" then cmp
+      else if bsup != 0 || bbal.any (· != 0) then predfail "C03_no_akava_in_bank" "akava-in-x/bank"
+      else if gb.getD R 0 != 0 then predfail "C03_reserve_hidden" "reserve-balance-visible"
+      else "ok"
+    | _, _, _, _, _, _, _, _ => badInput "parse"
+  | _ => badInput "arity"
+
+def handlers : List (String × Handler) := [("c03.op", handle), ("c03.view", handleView)]
 end Drv.C03
